@@ -25,7 +25,7 @@ def lifeRound (scripts : List (List Char)) (r : LRun) (j : Nat) : LRun := Id.run
       let a := sc.getD j ' '
       if a == 'R' then
         r := { r with s := step r.s (.data i), seen := r.seen.modify i (· ++ "200;") }
-      else if a == 'P' then r := { r with s := step r.s (.data i) }
+      else if a == 'P' || a == 'B' then r := { r with s := step r.s (.data i) }
       else if a == 'A' then r := { r with s := step (step r.s (.data i)) (.gone i), open_ := r.open_.set i false }
       else if a == 'C' || a == 'H' || a == 'X' then
         r := { r with s := step r.s (.gone i), open_ := r.open_.set i false }
